@@ -35,19 +35,22 @@ RULE = (
 )
 BOUNDS = {
     "quick": "4 bodies x 13 e x 5 i x 2 node x 2 perigee x 5 (ellipse) / 6 (hyperbola) anomalies: all 100/81 pairs, "
-    "setter, back conversion, infos in every source form; all 1000/729 walks on the sub-product with 2 bodies",
+    "setter, back conversion, infos in every source form; all 1000/729 walks on the sub-product with 2 bodies x 3 i",
     "thorough": "full alphabets 4 bodies x 13 e x 5 i x 4 node x 4 perigee x 9 (ellipse) / 10 (hyperbola) anomalies "
     "(40 000 orbits) for pairs/setter/back/infos and for all walks",
 }
 ASSUMPTIONS = [
     "element definitions are those documented in beyond/orbits/forms.py (equatorial spherical form, l = true longitude, "
     "ix = tan(i/2) cos(node)); ranges of angles are not part of the property (compared modulo 2 pi)",
-    "for hyperbolas the mean anomaly / hyperbolic anomaly / mean argument of latitude are real numbers, not angles",
+    "for hyperbolas the mean anomaly / hyperbolic anomaly / mean argument of latitude are real numbers, not angles; "
+    "alpha = w + M is formed with w in (-pi, pi], the branch the library's own reader (mean_circular -> mean) uses",
     "mu is taken from frame.center.body.mu (data), never recomputed",
 ]
 NOT_COVERED = (
     "e within 1e-4 of 0 or 1e-3 of 1, |i| < 0.01 rad from equatorial (excluded by the property's quantifier); "
-    "hyperbolic mean anomalies beyond |M| = 1000; orbits given in the TLE form for a < 0 (form undefined)"
+    "hyperbolic mean anomalies beyond |M| = 1000, i.e. |H| > 8 (the accuracy of the library's arctanh formulation of "
+    "true -> hyperbolic anomaly decays like exp(2|H|): 5e-11 of the 1e-9 tolerance is used at |M| = 1000; C05 sees the "
+    "same loss as a failing inverse); orbits given in the TLE form for a < 0 (form undefined)"
 )
 
 # ---------------------------------------------------------------------------
@@ -101,12 +104,18 @@ def orbit_list(tier, part):
     else:
         node, peri, m_ell, m_hyp = NODE, PERI, M_ELL, M_HYP
     bodies = list(BODIES)
+    inc = INC
     if tier == "quick" and part == "walk":
         bodies = ["earth", "test"]
+        inc = [0.01, 2.2, math.pi - 0.01]
     out = []
     for body in bodies:
         for e in E_ELL + E_HYP:
-            for i, Om, w in itertools.product(INC, node, peri):
+            for i, Om, w in itertools.product(inc, node, peri):
+                if e > 1 and w == math.pi:
+                    # w = pi sits on the branch cut of arctan2 on which the hyperbolic alpha = w + M depends
+                    # (round-off decides between +pi and -pi): 3.0 instead, for hyperbolas only
+                    w = 3.0
                 for M in m_ell if e < 1 else m_hyp:
                     out.append((body, e, i, Om, w, M))
     return out
@@ -275,7 +284,9 @@ def localise(R, start, target):
             return f"edge/{a.name}->{b.name}/{R['conic']}/raises-{type(ex).__name__}"
         arr = np.array(nxt, dtype=float)
         if not _finite(arr):
-            return f"edge/{a.name}->{b.name}/{R['conic']}/non-finite"
+            # input class: hyperbolic mean anomalies beyond 500 (start value of the Newton iteration ~ |M|)
+            cls = "/large-mean-anomaly" if R["conic"] == "hyp" and abs(R["nums"]["keplerian_mean"][5]) > 500 else ""
+            return f"edge/{a.name}->{b.name}/{R['conic']}/non-finite{cls}"
         er, ev = cart_err(R, b.name, arr)
         if not (max(er, ev) <= TOL_CART[R['conic']] * R["cond"]):
             return f"edge/{a.name}->{b.name}/{R['conic']}/wrong-state"
@@ -419,8 +430,7 @@ def check_infos(orb, S, t):
         got = float(val)
         want, scale = exp[name]
         if not math.isfinite(got):
-            nu0 = "nu=0" if orb[5] == 0.0 else "nu!=0"
-            t.fail(f"Infos.{name}/non-finite/{nu0}", clause, case, want, repr(got), f"infos.{name} = {got!r} (expected {want:.12g})")
+            t.fail(f"Infos.{name}/value", clause, case, want, repr(got), f"infos.{name} = {got!r} (non-finite; defining relation gives {want:.12g}; M = {orb[5]})")
             continue
         d = abs(got - want) / scale
         tol = (TOL_INFO_A if name in INFO_A_ONLY else TOL_INFO[R['conic']]) * cond
